@@ -76,3 +76,15 @@ for _nm, _s, _e, _sem in (("exact", False, False, "x == t"), ("suffix", True, Fa
 
 # ---------------------------------------------------------------- C14: strict dotted ancestry on strings
 REG.macro("str_anc", ["a", "b"], "b.startswith(a + '.')")
+
+# ---------------------------------------------------------------- eval_structure/types.py: get_parent_modules (C02, C04, C10, C14)
+M_TY = "pytestarch.eval_structure.types"
+REG.add(Contract("get_parent_modules", module=M_TY, view="string", params=dict(module="Str"), returns="Bag[Str]",
+                 # C14: the parents of a name are exactly its strict DOTTED ancestors (module == p + '.' + rest)
+                 ensures=["forall(Str, lambda p: (p in result) == str_anc(p, module))"],
+                 locals=dict(parent_modules="Bag[Str]", parent="Str"),
+                 loops={0: dict(sig="for char in module", invariant=[
+                     "parent == module[0:idx]",
+                     "forall(Str, lambda p: (p in parent_modules) == (str_anc(p, module) and len(p) < idx))"])},
+                 note="the local 'parent' (a list of characters that is only appended to and joined with '') is modelled by its concatenation",
+                 properties=["C02", "C04", "C10", "C14"]))
